@@ -105,9 +105,10 @@ fn verif_replay_c02() {
     for &m in sizes {
         for n in [1usize, 2, 3, 10, 100, 1000] {
             if !thorough && n > 100 { continue; }
-            for style in 0..4 {
+            for style in 0..8 {
                 let ws: Ws = (0..n as u64).map(|i| { let d = (i + 1) * 6_364_136_223 + rnd() % 7;
-                    let w = match style { 0 => 1.0, 1 => 1.0 + (rnd() % 1000) as f64 / 8.0, 2 => if i % 3 == 0 { 1e-6 } else { 1e6 }, _ => (1u64 << (rnd() % 20)) as f64 };
+                    let w = match style { 0 => 1.0, 1 => 1.0 + (rnd() % 1000) as f64 / 8.0, 2 => if i % 3 == 0 { 1e-6 } else { 1e6 },
+                        4 => 1e-20 * (1 + i % 7) as f64, 5 => 0.5e-16 * (i + 1) as f64, 6 => 1e290 * (1 + i % 5) as f64, 7 => f64::MIN_POSITIVE * 2f64.powi(200) * (1 + i % 3) as f64, _ => (1u64 << (rnd() % 20)) as f64 };
                     (d, w) }).collect();
                 let mut seen = std::collections::HashSet::new();
                 let ws: Ws = ws.into_iter().filter(|(d, _)| seen.insert(*d)).collect();
